@@ -497,6 +497,11 @@ func main() {
 				i := i
 				plan = append(plan, func() scenario { return g.malformed(i) })
 			}
+			// every byte the batch/single sniffing skips, and its neighbours, in front of a batch and of a single request
+			for k := 0; k < 2*len(leadBytes); k++ {
+				k := k
+				plan = append(plan, func() scenario { return g.leadCorpus(k) })
+			}
 			for _, n := range []int{1, 2, 64} {
 				n := n
 				plan = append(plan, func() scenario { return g.batch(thorough, n, "passthrough") })
